@@ -41,7 +41,8 @@ Without(q, i) == [j \in 1..(Len(q) - 1) |-> IF j < i THEN q[j] ELSE q[j + 1]]
 \* recv_from: compaction first.  Nothing read, bytes that are no message, a datagram from port 0: nothing is handed on.  A REQUEST
 \* is handed on whatever transaction id it carries and touches no in-flight request.  A response / error <<t, from>>: the
 \* attribution rule.
-Answers(kind) == kind \in {"resp", "err"}
+\* ("big": a response of the largest legal size)
+Answers(kind) == kind \in {"resp", "err", "big"}
 Recv(st0, t, from, timeout, k, kind) ==
   LET st == Cleanup(st0, timeout, k)
       i == IF t < 0 THEN NoHit ELSE Index(st.reqs, t)
